@@ -13,6 +13,9 @@ EXTENDS Naturals, Integers, Sequences, FiniteSets, TLC, Json, IOUtils, AirValues
 
 Family == IOEnv.FAMILY
 Tier == IOEnv.TIER
+\* TLC evaluates every constant definition at start-up: the big case spaces are computed only for their own family
+LensOn == Family = "lens"
+ScriptOn == Family \in {"parse", "beautify", "runscript"}
 
 Class(code) ==
     IF code = 0 THEN "ok" ELSE IF code >= 1 /\ code <= 9999 THEN "prep"
@@ -71,18 +74,18 @@ Atoms == {Num(0), Num(1), Str("a"), Str("b"), Bool(TRUE), Null, Arr(<<>>), Obj(<
 Arrays(S) == {Arr(<<x>>) : x \in S} \cup {Arr(<<x, y>>) : x \in S, y \in S}
 Objects(S) == {Obj(<<KV("a", x)>>) : x \in S} \cup {Obj(<<KV("b", x)>>) : x \in S}
               \cup {Obj(<<KV("a", x), KV("b", y)>>) : x \in S, y \in S}
-Depth1 == Arrays(Atoms) \cup Objects(Atoms)
+Depth1 == IF ~LensOn THEN {} ELSE Arrays(Atoms) \cup Objects(Atoms)
 Seeds2 == {Arr(<<Num(0), Num(1)>>), Arr(<<Str("a")>>), Obj(<<KV("a", Num(1))>>), Obj(<<KV("a", Arr(<<Num(0)>>)), KV("b", Str("b"))>>),
            Arr(<<>>), Obj(<<>>), Str("a"), Num(1)}
-Depth2 == Arrays(Seeds2) \cup Objects(Seeds2)
-LensValues == IF Tier = "quick" THEN Atoms \cup {v \in Depth1 : TRUE} \cup {Arr(<<x>>) : x \in Seeds2} \cup {Obj(<<KV("a", x)>>) : x \in Seeds2}
+Depth2 == IF ~LensOn THEN {} ELSE Arrays(Seeds2) \cup Objects(Seeds2)
+LensValues == IF ~LensOn THEN {} ELSE IF Tier = "quick" THEN Atoms \cup {v \in Depth1 : TRUE} \cup {Arr(<<x>>) : x \in Seeds2} \cup {Obj(<<KV("a", x)>>) : x \in Seeds2}
               ELSE Atoms \cup Depth1 \cup Depth2
 
 Steps == {[lk |-> "field", name |-> "a"], [lk |-> "field", name |-> "b"],
           [lk |-> "idx", ix |-> 0], [lk |-> "idx", ix |-> 1], [lk |-> "idx", ix |-> 2], [lk |-> "var", x |-> "k"]}
 Paths1 == {<<s>> : s \in Steps}
-Paths2 == {<<s, t>> : s \in Steps, t \in Steps}
-Paths3 == {<<s, t, u>> : s \in Steps, t \in Steps, u \in Steps}
+Paths2 == IF ~LensOn THEN {} ELSE {<<s, t>> : s \in Steps, t \in Steps}
+Paths3 == IF ~LensOn THEN {} ELSE {<<s, t, u>> : s \in Steps, t \in Steps, u \in Steps}
 LensPaths == IF Tier = "quick" THEN Paths1 \cup Paths2 ELSE Paths1 \cup Paths2 \cup Paths3
 KVars == {Str("a"), Num(1), Bool(TRUE)}
 HasVarStep(p) == \E i \in 1..Len(p) : p[i].lk = "var"
@@ -95,10 +98,14 @@ MapValues == { Obj(<<>>),
                Obj(<<KV("1", Arr(<<Str("b"), Arr(<<Num(0), Num(1)>>)>>)), KV("b", Arr(<<Null>>))>>),
                Obj(<<KV("0", Arr(<<Num(1), Num(0), Str("a")>>)), KV("1", Arr(<<Bool(TRUE)>>)), KV("a", Arr(<<Arr(<<Str("a")>>)>>))>>) }
 LensCase(cr, v, p, k) == [family |-> "lens", carrier |-> cr, value |-> v, path |-> p, kvar |-> k]
+\* paths of length 3 over a smaller set of values (they add depth of navigation, not new shapes of values)
+P3Values == IF ~LensOn \/ Tier = "quick" THEN {} ELSE Atoms \cup {Arr(<<x>>) : x \in Seeds2} \cup {Obj(<<KV("a", x)>>) : x \in Seeds2}
 LensCases ==
-    {LensCase("scalar", v, p, k) : v \in LensValues, p \in LensPaths, k \in KVars}
+    {LensCase("scalar", v, p, k) : v \in LensValues, p \in Paths1 \cup Paths2, k \in KVars}
+    \cup {LensCase("scalar", v, p, k) : v \in P3Values, p \in Paths3, k \in KVars}
     \cup {LensCase("scalar", v, <<[lk |-> "len"]>>, Str("a")) : v \in LensValues}
-    \cup {LensCase("canon", v, p, k) : v \in CanonValues, p \in LensPaths, k \in KVars}
+    \cup {LensCase("canon", v, p, k) : v \in CanonValues, p \in Paths1 \cup Paths2, k \in KVars}
+    \cup {LensCase("canon", v, p, k) : v \in {x \in P3Values : IsArr(x)}, p \in Paths3, k \in KVars}
     \cup {LensCase("canon", v, <<[lk |-> "len"]>>, Str("a")) : v \in CanonValues}
     \cup {LensCase("map", v, p, k) : v \in MapValues, p \in Paths1 \cup Paths2 \cup Paths3, k \in KVars}
 \* keep the cases whose path does not use k only once (for k = "a")
@@ -164,11 +171,11 @@ Wrap(S) ==
     \cup {[op |-> "new", n |-> "x", i |-> a] : a \in S}
     \cup {[op |-> "match", a |-> PV("x"), b |-> SL("lit"), i |-> a] : a \in S}
     \cup {[op |-> "mismatch", a |-> PV("y"), b |-> PV("x"), i |-> a] : a \in S}
-D1 == Compound(Leaves, Leaves) \cup Wrap(Leaves)
+D1 == IF ~ScriptOn THEN {} ELSE Compound(Leaves, Leaves) \cup Wrap(Leaves)
 Def == CallI(<<>>, "x")
 \* depth 2: a defining prefix followed by anything of depth 1, wrappers over binary nodes, binary nodes over wrappers
-D2quick == {[op |-> "seq", l |-> Def, r |-> a] : a \in D1} \cup Wrap(Compound(Leaves, {[op |-> "next", x |-> "i"], CallI(<<PV("i")>>, "y")}))
-D2full == D2quick \cup Compound(Wrap(Leaves), Leaves) \cup Compound(Leaves, Wrap(Leaves)) \cup Wrap(Compound(Leaves, Leaves))
+D2quick == IF ~ScriptOn THEN {} ELSE {[op |-> "seq", l |-> Def, r |-> a] : a \in D1} \cup Wrap(Compound(Leaves, {[op |-> "next", x |-> "i"], CallI(<<PV("i")>>, "y")}))
+D2full == IF ~ScriptOn THEN {} ELSE D2quick \cup Compound(Wrap(Leaves), Leaves) \cup Compound(Leaves, Wrap(Leaves)) \cup Wrap(Compound(Leaves, Leaves))
           \cup {[op |-> "seq", l |-> Def, r |-> [op |-> "seq", l |-> a, r |-> b]] : a \in Leaves, b \in Wrap(Leaves)}
 ScriptSpace == IF Tier = "quick" THEN Leaves \cup D1 \cup D2quick ELSE Leaves \cup D1 \cup D2full
 \* deep chains: wrapper k of depth d around wrapper k+1 of depth d-1 ... around a leaf, behind a defining prefix; nesting
@@ -182,9 +189,9 @@ WrapK(k, d, a) ==
       [] OTHER     -> [op |-> "xor", l |-> [op |-> "seq", l |-> [op |-> "null"], r |-> a], r |-> [op |-> "never"]]
 RECURSIVE Chain(_, _)
 Chain(k, d) == IF d = 0 THEN CallI(<<PV("x")>>, "") ELSE WrapK(k, d, Chain(k + 1, d - 1))
-DeepChains == {[op |-> "seq", l |-> Def, r |-> Chain(k, d)] : k \in 0..5, d \in 3..(IF Tier = "quick" THEN 9 ELSE 14)}
+DeepChains == IF ~ScriptOn THEN {} ELSE {[op |-> "seq", l |-> Def, r |-> Chain(k, d)] : k \in 0..5, d \in 3..(IF Tier = "quick" THEN 9 ELSE 14)}
 \* uses after a fold of what belongs to it: a second `next`, the iterator, a name defined in the body
-AfterFold ==
+AfterFold == IF ~ScriptOn THEN {} ELSE
     {[op |-> "seq", l |-> Def, r |-> [op |-> "seq", l |-> w, r |-> a]] :
         w \in Wrap({[op |-> "next", x |-> "i"], [op |-> "seq", l |-> CallI(<<PV("i")>>, "y"), r |-> [op |-> "next", x |-> "i"]], [op |-> "null"]}),
         a \in {[op |-> "next", x |-> "i"], CallI(<<PV("i")>>, ""), CallI(<<PV("y")>>, ""), [op |-> "next", x |-> "j"]}}
